@@ -12,7 +12,9 @@ ufunc = REG.ufunc
 ghostvar = REG.ghostvar
 fold = REG.fold
 axiom = REG.axiom
+site = REG.site
+opaque = REG.opaque
 
 # names used inside @spec bodies: they are never executed by CPython at load
 # time (the source is interpreted symbolically), so they need no definition.
-__all__ = ['contract', 'invariant', 'cls', 'record', 'enum', 'spec', 'const', 'ufunc', 'ghostvar', 'fold', 'axiom']
+__all__ = ['contract', 'invariant', 'cls', 'record', 'enum', 'spec', 'const', 'ufunc', 'ghostvar', 'fold', 'axiom', 'site', 'opaque']
